@@ -1,6 +1,9 @@
 /* correspondence shim for src/memory/cc_static_pool.c
  *
- * The pool gets a byte buffer  [pre-canary | offset bytes | region (size bytes) | post-canary];
+ * The pool gets a byte buffer  [pre-canary | offset bytes | region (size bytes) | post-canary]
+ * and a separately allocated header buffer; with `layout=tight hdr=8|0` both live in ONE block
+ * [pre-canary | header (exactly struct_size bytes, address = hdr mod 16) | offset bytes | region | post-canary];
+ * with `giant=1` the region is untouched reserved address space (no canaries, no bytes);
  * addresses are printed as offsets relative to the region start (NULL -> "NULL").
  * Every block handed out is dirtied with a non-zero pattern by the "user" (this shim), calloc'ed
  * blocks are first checked to be zero (zero=1).  Walkers (WALK=...) check canaries, containment
@@ -8,6 +11,7 @@
  * public used_bytes() observations. */
 #include "cc_static_pool.c"
 #include "common.h"
+#include <sys/mman.h>
 
 #define CAN 32
 #define CANARY 0xC5
@@ -24,13 +28,17 @@ static void check_contents(void);
 static int sparse;      /* obs=sparse: used/free are queried only on `observe` */
 static int quiet;       /* phys=quiet: the region bytes are printed as a checksum (FNV-1a 64 of the list text), the full dump on `observe` */
 static int observing;
+static int giant;       /* giant=1: the region is reserved address space (mmap PROT_NONE) of several GiB and is never touched */
+static uint8_t *hdrpos, *databuf;   /* layout=tight: header and data buffer inside one block */
+static size_t rawlen;
 /* private view of used bytes (no call into the library) for the walkers and the shadow list */
 static size_t priv_used(void) { return (size_t)(pool->free_ptr - pool->low_ptr); }
 
 static void shim_reset(void) {
-    if (raw) __real_free(raw);
+    if (raw && giant) munmap(raw, rawlen); else if (raw) __real_free(raw);
     if (pstruct) __real_free(pstruct);
-    raw = region = pstruct = NULL; pool = NULL; nptrs = nshadow = 0; pat_counter = 0; sparse = 0; quiet = 0;
+    raw = region = pstruct = NULL; pool = NULL; nptrs = nshadow = 0; pat_counter = 0; sparse = 0; quiet = 0; giant = 0;
+    hdrpos = databuf = NULL;
 }
 static void o_ptr(uint8_t *p) {
     if (!p) o(" p=NULL"); else o(" p=%lld", (long long)(p - region));
@@ -43,7 +51,8 @@ static void phys(void) {
     if (!pool) { o("-"); return; }
     o("size=%zu free=%zu high=%zu ", pool->size, (size_t)(pool->free_ptr - pool->low_ptr),
       (size_t)(pool->high_ptr - pool->low_ptr));
-    if (quiet && !observing) {
+    if (giant) o("bytes=-");
+    else if (quiet && !observing) {
         /* FNV-1a 64 over the text "b0,b1,...,bn" of the list that the full mode prints */
         unsigned long long h = 14695981039346656037ULL; char t[8];
         for (size_t i = 0; i < rsize; i++) {
@@ -53,8 +62,14 @@ static void phys(void) {
         o("bytes=#%llu", h);
     } else { O_LIST("bytes"); for (size_t i = 0; i < rsize; i++) o_item(region[i]); o_end(); }
     /* L2 walkers */
-    for (size_t i = 0; i < CAN + roff; i++) if (raw[i] != CANARY) { o(" WALK=canary-before"); break; }
-    for (size_t i = 0; i < CAN; i++) if (region[rsize + i] != CANARY) { o(" WALK=canary-after"); break; }
+    if (!giant) {
+        /* canaries: everything of our block before the header (tight layout) or before the region, the
+           `offset` bytes between the data buffer and the region, and the bytes after the region */
+        uint8_t *pre_end = hdrpos ? hdrpos : region;
+        for (uint8_t *q = raw; q < pre_end; q++) if (*q != CANARY) { o(" WALK=canary-before"); break; }
+        if (hdrpos) for (uint8_t *q = databuf; q < region; q++) if (*q != CANARY) { o(" WALK=canary-before-region"); break; }
+        for (size_t i = 0; i < CAN; i++) if (region[rsize + i] != CANARY) { o(" WALK=canary-after"); break; }
+    }
     if (pool->low_ptr != region || pool->block != region) o(" WALK=region-start");
     size_t tot = 0;
     for (size_t i = 0; i < nshadow; i++) {
@@ -89,7 +104,7 @@ static void handed_out(uint8_t *p, size_t n, size_t used_before) {
     int pat = -1;
     /* the user writes the whole block (only when it is inside our buffer, else ASan would stop us
        before the walker can report) */
-    if (p >= region && n <= rsize && (size_t)(p - region) <= rsize - n) {
+    if (!giant && p >= region && n <= rsize && (size_t)(p - region) <= rsize - n) {
         pat = (int)(1 + (pat_counter++ % 250));
         memset(p, pat, n);
     }
@@ -101,12 +116,41 @@ static void do_op(Cmd *c) {
         rsize = kv_u64(c, "size", 16); roff = kv_u64(c, "off", 0);
         sparse = !strcmp(kv_str(c, "obs", "full"), "sparse");
         quiet = !strcmp(kv_str(c, "phys", "full"), "quiet");
-        raw = __real_malloc(CAN + roff + rsize + CAN);
-        memset(raw, CANARY, CAN + roff + rsize + CAN);
-        region = raw + CAN + roff;
-        memset(region, FRESH, rsize);
-        pstruct = __real_malloc(cc_static_pool_struct_size());
-        enum cc_stat st = cc_static_pool_new(rsize, roff, raw + CAN, pstruct, &pool);
+        giant = (int)kv_u64(c, "giant", 0);
+        enum cc_stat st;
+        if (giant) {
+            /* several GiB of reserved address space that is never read or written: only pointer
+               arithmetic of the pool is exercised (sizes and used counts above 2^32) */
+            rawlen = roff + rsize + 4096;
+            raw = mmap(NULL, rawlen, PROT_NONE, MAP_PRIVATE | MAP_ANONYMOUS | MAP_NORESERVE, -1, 0);
+            if (raw == MAP_FAILED) { raw = NULL; giant = 0; o("st=- WALK=mmap-failed"); o_sep(); o("-"); return; }
+            region = raw + roff;
+            pstruct = __real_malloc(cc_static_pool_struct_size());
+            st = cc_static_pool_new(rsize, roff, raw, pstruct, &pool);
+        } else if (!strcmp(kv_str(c, "layout", "apart"), "tight")) {
+            /* tight layout: ONE block; the header buffer is exactly cc_static_pool_struct_size() bytes at an
+               address = hdr (mod 16) and the data buffer follows it immediately, so a library that places
+               its header anywhere but at the start of `pool_alloc`, or needs more than struct_size bytes,
+               runs into the data region (caught by the pattern re-verification and the canaries) */
+            size_t ss = cc_static_pool_struct_size(), hmod = kv_u64(c, "hdr", 8) % 16;
+            rawlen = CAN + 16 + ss + roff + rsize + CAN;
+            raw = __real_malloc(rawlen);
+            memset(raw, CANARY, rawlen);
+            hdrpos = raw + CAN;
+            while ((uintptr_t)hdrpos % 16 != hmod) hdrpos++;
+            databuf = hdrpos + ss;
+            region = databuf + roff;
+            memset(region, FRESH, rsize);
+            st = cc_static_pool_new(rsize, roff, databuf, hdrpos, &pool);
+        } else {
+            rawlen = CAN + roff + rsize + CAN;
+            raw = __real_malloc(rawlen);
+            memset(raw, CANARY, rawlen);
+            region = raw + CAN + roff;
+            memset(region, FRESH, rsize);
+            pstruct = __real_malloc(cc_static_pool_struct_size());
+            st = cc_static_pool_new(rsize, roff, raw + CAN, pstruct, &pool);
+        }
         if (st != CC_OK) pool = NULL;
         o_stat(st);
     } else if (!pool) { o("st=- nosession"); o_sep(); o("-"); return;
@@ -116,6 +160,8 @@ static void do_op(Cmd *c) {
         size_t n = pos_u64(c, 0), u = priv_used();
         uint8_t *p = cc_static_pool_malloc(n, pool);
         o("st=-"); o_ptr(p); handed_out(p, n, u);
+    } else if (is_op(c, "calloc") && giant) {
+        o("st=- badop");       /* a giant region is never written */
     } else if (is_op(c, "calloc")) {
         size_t a = pos_u64(c, 0), b = pos_u64(c, 1), u = priv_used();
         uint8_t *p = cc_static_pool_calloc(a, b, pool);
